@@ -359,6 +359,37 @@ func scribbleValue(v reflect.Value, depth int) {
 	}
 }
 
+// packetInContext: the option under test inside a server's reply that carries every other typed option too (what an
+// accessor returns is a function of its own option: not of the opcode, not of the neighbours)
+func packetInContext(rng *rand.Rand, code uint8, raw []byte) (*dhcpv4.DHCPv4, bool) {
+	ip := func() net.IP { return net.IP(randBytes(rng, 4)) }
+	p, err := dhcpv4.New(dhcpv4.WithMessageType(dhcpv4.MessageType(pick(rng, 2, 5, 5, 6, 1, 3))), dhcpv4.WithYourIP(ip()), dhcpv4.WithServerIP(ip()),
+		dhcpv4.WithRouter(ip(), ip()), dhcpv4.WithDNS(ip()), dhcpv4.WithNetmask(net.CIDRMask(24, 32)), dhcpv4.WithLeaseTime(3600),
+		dhcpv4.WithOption(dhcpv4.OptServerIdentifier(ip())), dhcpv4.WithOption(dhcpv4.OptBroadcastAddress(ip())),
+		dhcpv4.WithOption(dhcpv4.OptClasslessStaticRoute(&dhcpv4.Route{Dest: &net.IPNet{IP: net.IPv4(10, 0, 0, 0).To4(), Mask: net.CIDRMask(8, 32)}, Router: ip()})),
+		dhcpv4.WithOption(dhcpv4.OptNTPServers(ip())), dhcpv4.WithOption(dhcpv4.OptHostName("h.example")), dhcpv4.WithOption(dhcpv4.OptDomainName("example")),
+		dhcpv4.WithOption(dhcpv4.OptBootFileName("boot.efi")), dhcpv4.WithOption(dhcpv4.OptTFTPServerName("tftp.example")),
+		dhcpv4.WithOption(dhcpv4.OptRelayAgentInfo(dhcpv4.OptGeneric(dhcpv4.AgentCircuitIDSubOption, []byte("Ethernet1/1")))),
+		dhcpv4.WithOption(dhcpv4.OptClientIdentifier([]byte{1, 2, 3, 4, 5, 6, 7})), dhcpv4.WithOption(dhcpv4.OptRFC3004UserClass([]string{"ipxe"})),
+		dhcpv4.WithOption(dhcpv4.OptParameterRequestList(dhcpv4.OptionRouter, dhcpv4.OptionClasslessStaticRoute)),
+		dhcpv4.WithOption(dhcpv4.OptDomainSearch(&rfc1035label.Labels{Labels: []string{"a.example"}})),
+		dhcpv4.WithOption(dhcpv4.OptGeneric(dhcpv4.GenericOptionCode(80), nil)))
+	if err != nil {
+		return nil, false
+	}
+	p.OpCode = dhcpv4.OpcodeBootReply
+	if rng.Intn(3) == 0 {
+		p.OpCode = dhcpv4.OpcodeBootRequest
+	}
+	p.GatewayIPAddr = ip()
+	p.Options[code] = raw
+	q, err := dhcpv4.FromBytes(p.ToBytes())
+	if err != nil {
+		return nil, false
+	}
+	return q, true
+}
+
 func callAcc(a accessor, p *dhcpv4.DHCPv4) (res map[string]any) {
 	defer func() {
 		if r := recover(); r != nil {
@@ -399,6 +430,12 @@ func genC17(o *Out, rng *rand.Rand, tier string) {
 				}
 				o.Emit(map[string]any{"op": "Acc", "acc": a.name, "absent": false, "raw": B(raw), "res": callAcc(a, q)}, "raw-"+a.name,
 					append([]byte(a.name), raw...), true)
+				if k >= 1 && L%4 == 0 {
+					if qc, ok := packetInContext(rng, a.code, raw); ok {
+						o.Emit(map[string]any{"op": "Acc", "acc": a.name, "absent": false, "raw": B(raw), "res": callAcc(a, qc)}, "raw-in-a-full-reply",
+							append([]byte("ctx"+a.name), raw...), true)
+					}
+				}
 				// what an accessor hands out is the consumer's: the consumer overwrites it, and the reading of the option -
 				// from this packet and from another packet that carries the same bytes - is still the RFC's
 				if k >= 2 && L > 0 && L%3 == 0 {
